@@ -7,7 +7,7 @@ from vlib.core import Ob
 from vlib.rvc import D, Mx, Exec, Ret, Thrown, SInt
 
 META = {
-    'level': 'other', 'functions': [],
+    'level': 'proof', 'functions': [],
     'explanation': 'Deductive obligations (identities in exact real arithmetic, path logic by z3) generated from the AST of the real Map_Sphere::Initialize / Apply; coordinates, weights, boxes and presence patterns are symbolic, the number of parent beads is enumerated up to a bound, so every obligation is reported as bounded (coverage.bounded) and none is counted as an unbounded proof.',
     'trusted_base': ['clang 14 AST = the code g++ compiles', 'RVC executor with feasibility-checked path forking (z3), Eigen Vector3d algebra contracts',
                      'callee contracts: BoundaryCondition::BCShortestConnection and getShortestBoxDimension by their C02 contracts (proved in check C02), Bead getters as symbolic fields, '
@@ -253,6 +253,232 @@ def job_apply(n, boxtype, flags, seed, ellipsoid=False):
     return obs
 
 
+def assigned_names(node):
+    """names of variables assigned somewhere inside an AST subtree (=, compound assignment, overloaded +=, ++/--)"""
+    out = set()
+    for n in rvc.walk(node):
+        k = n.get('kind')
+        tgt = None
+        if k in ('BinaryOperator', 'CompoundAssignOperator') and n.get('opcode', '').endswith('=') and n.get('opcode') not in ('==', '!=', '<=', '>='):
+            tgt = n['inner'][0]
+        elif k == 'CXXOperatorCallExpr' and len(n.get('inner', [])) == 3:
+            cal = n['inner'][0]
+            while cal.get('kind') in rvc.TRANSPARENT:
+                cal = cal['inner'][0]
+            if cal.get('kind') == 'DeclRefExpr' and cal['referencedDecl']['name'] in ('operator=', 'operator+=', 'operator-=', 'operator*=', 'operator/='):
+                tgt = n['inner'][1]
+        elif k == 'UnaryOperator' and n.get('opcode') in ('++', '--'):
+            tgt = n['inner'][0]
+        while tgt is not None and tgt.get('kind') in rvc.TRANSPARENT:
+            tgt = tgt['inner'][0]
+        if tgt is not None and tgt.get('kind') == 'DeclRefExpr':
+            out.add(tgt['referencedDecl']['name'])
+    return out
+
+
+def job_apply_inductive(boxtype, seed):
+    """Map_Sphere::Apply for ANY number of parents: each loop is closed by a per-iteration contract (the loop body is executed once for an arbitrary element and an
+    arbitrary value of every loop-carried variable), the code before / between / after the loops runs on symbolic accumulated values.  Hoare rule: initial value
+    + per-iteration update => accumulated value; the composition is the rule, every premise is an obligation here."""
+    rvc.reset()
+    fns = map_fns()
+    fn = fns['Apply'][0]
+    F = 'Map_Sphere::Apply'
+    stmts = rvc.body_of(fn)['inner']
+    loops = [i for i, st in enumerate(stmts) if st['kind'] == 'CXXForRangeStmt']
+    if len(loops) != 2:
+        raise core.Undecided('Map_Sphere::Apply: expected two loops over the parents, found %d' % len(loops))
+    obs = []
+    mfs = [{'name': F, 'file': 'csg/src/libcsg/map.cc', 'ast_nodes': rvc.node_count(fn), 'route': 'RVC, loops closed by per-iteration contracts (unbounded parent count)'}]
+    def ob(oid, clause, ok, detail=''):
+        o = Ob(oid, F, clause, 'RVC', 'symbolic execution + exact normal form (loop closed by a per-iteration contract)', core.PROVED if ok else core.REFUTED, 0, detail, witness=None if ok else {'detail': detail[:500]})
+        o['functions'] = mfs
+        obs.append(o)
+    nsym = sp.Symbol('nparents', integer=True, positive=True)
+    r0 = Mx.sym('r0', 3)
+    hmin = sp.Symbol('hmin', positive=True)
+    def make_elem(tag, haspos, hasvel, hasf, first=False):
+        e = {'tag': tag, 'w': sp.Symbol('w_' + tag, real=True), 'fw': sp.Symbol('fw_' + tag, real=True), 'm': sp.Symbol('m_' + tag, positive=True), 'u': Mx.sym('u_' + tag, 3), 'dn': sp.Symbol('dist_' + tag, nonnegative=True),
+             'v': Mx.sym('v_' + tag, 3), 'F': Mx.sym('F_' + tag, 3), 'haspos': haspos, 'hasvel': hasvel, 'hasf': hasf, 'first': first}
+        e['bead'] = {'elem': e}
+        e['entry'] = {'in_': e['bead'], 'weight_': D(e['w']), 'force_weight_': D(e['fw'])}
+        return e
+    for hp0 in (True, False):
+      for hpk in (True, False):
+        P = rvc.Paths()
+        while True:
+            P.start()
+            e0 = make_elem('first', hp0, True, True, first=True)
+            ek = make_elem('k', hpk, True, True)
+            estar = make_elem('far', True, True, True)
+            rvc.CTX.base = [z3.Int('nparents') >= 1, z3.Real('hmin') > 0] + [z3.Real('dist_' + t) >= 0 for t in ('first', 'k', 'far')] + [z3.Real('pre_max_bead_dist') >= 0]
+            out = {'parents': [], 'events': []}
+            matrix = ['MATRIX']
+            def getPos(b):
+                e = b['elem']
+                return r0 if e['first'] else PosTok(e['tag'])
+            def bcsc(bc, a, b):
+                if not (a is r0 or (isinstance(a, Mx) and all(rvc.nf_zero(a.g(k).v - (r0.g(k).v if hp0 else 0)) for k in range(3)))):
+                    raise rvc.Unsupported('BCShortestConnection called with an unexpected first argument')
+                if b is r0:
+                    v = NormVec(3, 1); v.dn = sp.Integer(0)
+                    return v
+                if not isinstance(b, PosTok):
+                    raise rvc.Unsupported('BCShortestConnection called with an unexpected second argument')
+                e = {'k': ek, 'far': estar, 'first': e0}[b.i]
+                v = NormVec(3, 1, [[e['u'].g(k)] for k in range(3)]); v.dn = e['dn']
+                return v
+            cb = {'decide': P.decide, 'enum': lambda nm: {'typeAuto': 0, 'typeTriclinic': 1, 'typeOrthorhombic': 2, 'typeOpen': 3}[nm],
+                  'size': lambda o: SInt(nsym) if o is matrix else len(o), 'front': lambda o: e0['entry'], 'at': lambda o, i: e0['entry'] if rvc._i(i) == 0 else (_ for _ in ()).throw(rvc.Unsupported('matrix_.at(%r)' % (i,))),
+                  'HasPos': lambda b: b['elem']['haspos'], 'HasVel': lambda b: b['elem']['hasvel'], 'HasF': lambda b: b['elem']['hasf'],
+                  'getPos': getPos, 'getVel': lambda b: b['elem']['v'], 'getF': lambda b: b['elem']['F'], 'getMass': lambda b: D(b['elem']['m']), 'getId': lambda b: 'id_' + b['elem']['tag'],
+                  'getName': lambda b: 'name_' + b['elem']['tag'], 'getMoleculeId': lambda b: 0,
+                  'ClearParentBeads': lambda o: o['events'].append('clear'), 'AddParentBead': lambda o, i: o['events'].append(('parent', i)),
+                  'setMass': lambda o, v: o.__setitem__('mass', v), 'setPos': lambda o, v: o.__setitem__('pos', v), 'setVel': lambda o, v: o.__setitem__('vel', v), 'setF': lambda o, v: o.__setitem__('f', v),
+                  'BCShortestConnection': bcsc, 'getBoxType': lambda bc: boxtype, 'getShortestBoxDimension': lambda bc: D(hmin), 'lexical_cast': lambda *a: 'str', 'ostream_write': lambda *a: None}
+            ex = Exec({'bc': 'BC'}, cb, fns, {'matrix_': matrix, 'out_': out})
+            tag = 'box%d.first%s.k%s.p%d' % (boxtype, 'pos' if hp0 else 'nopos', 'pos' if hpk else 'nopos', P.count)
+            # ---- prefix
+            for st in stmts[:loops[0]]:
+                ex.stmt(st)
+            init = {k: ex.env[k] for k in assigned_names(stmts[loops[0]]) | assigned_names(stmts[loops[1]]) if k in ex.env}
+            z = lambda v: (all(rvc.nf_zero(x.v) for x in v.flat()) if isinstance(v, Mx) else (v is False if isinstance(v, bool) else rvc.nf_zero(D.lift(v).v)))
+            scal = {k: v for k, v in init.items() if isinstance(v, (D, Mx, bool))}
+            ok0 = all(z(v) for k, v in scal.items())
+            ob('C01.apply.ind/%s/init' % tag, 'before the first parent every accumulator (mass, weighted position, velocity, force, largest parent distance, presence flags) is zero / false; the parent list of the output bead is cleared',
+               ok0 and out['events'] == ['clear'], 'initial %s events %s' % ({k: str(v)[:40] for k, v in scal.items()}, out['events']))
+            # ---- loop 1, one arbitrary iteration
+            def havoc(names):
+                pre = {}
+                for k in names:
+                    v = ex.env.get(k)
+                    if isinstance(v, Mx):
+                        pre[k] = Mx.sym('pre_' + k, 3)
+                    elif isinstance(v, bool):
+                        pre[k] = v                       # flags are handled by running both values below
+                    elif isinstance(v, D):
+                        pre[k] = D(sp.Symbol('pre_' + k, real=True))
+                    elif isinstance(v, dict) and 'elem' in v:
+                        pre[k] = estar['bead']           # 'the parent seen so far that is farthest away': some earlier element
+                    else:
+                        pre[k] = v
+                    ex.env[k] = pre[k].copy() if isinstance(pre[k], Mx) else pre[k]
+                return pre
+            loop1 = stmts[loops[0]]
+            a1 = sorted(k for k in assigned_names(loop1) if k in ex.env)
+            flags1 = [k for k in a1 if isinstance(ex.env[k], bool)]
+            res1 = []
+            for fv in itertools.product((False, True), repeat=len(flags1)):
+                pre = havoc(a1)
+                for k, b in zip(flags1, fv):
+                    ex.env[k] = b; pre[k] = b
+                out['events'] = []
+                var = loop1['inner'][6]['inner'][0]['name']
+                ex.env[var] = ek['entry']
+                ex.stmt(loop1['inner'][7])
+                res1.append((pre, {k: ex.env[k] for k in a1}, list(out['events'])))
+            good = True
+            det = []
+            for pre, post, evs in res1:
+                for k in a1:
+                    a, b = pre[k], post[k]
+                    if isinstance(a, Mx):
+                        exp = [a.g(c).v + (ek['w'] * (ek['u'].g(c).v + (r0.g(c).v if hp0 else 0)) if hpk else 0) for c in range(3)]
+                        okk = all(rvc.nf_zero(b.g(c).v - exp[c]) for c in range(3))
+                    elif isinstance(a, bool):
+                        okk = b == (a or hpk)
+                    elif isinstance(a, D):
+                        if rvc.nf_zero(b.v - a.v - ek['m']):
+                            okk = True                                           # the mass accumulator
+                        else:                                                   # the largest-distance accumulator: max(pre, |bc(r0, r_k)|)
+                            zb, za, zd = rvc.to_z3(b.v), rvc.to_z3(a.v), z3.Real('dist_k')
+                            claim = z3.And(zb >= za, z3.Or(zb == za, zb == zd), zb >= zd) if hpk else (zb == za)
+                            okk = rvc.logic('x', 'x', 'x', claim, pc=P.pc)['status'] == core.PROVED
+                    else:
+                        okk = (b is a) or (isinstance(b, dict) and b.get('elem') in (ek, estar))
+                    good = good and okk
+                    det.append('%s:%s' % (k, okk))
+                good = good and evs == [('parent', 'id_k')]
+            masses = [k for k in a1 if isinstance(res1[0][0][k], D) and rvc.nf_zero(res1[0][1][k].v - res1[0][0][k].v - ek['m'])]
+            ob('C01.apply.ind/%s/loop1' % tag, 'one pass of the first loop for an arbitrary parent k and arbitrary accumulated values: mass += m_k; position += w_k (r0 + bc(r0, r_k)) if the parent has a position; largest distance = max(old, |bc(r0, r_k)|); '
+               'position flag |= HasPos(k); the parent id is recorded once; nothing else changes', good and len(masses) == 1, ' '.join(det))
+            # ---- between the loops: accumulated values are arbitrary (largest distance >= 0)
+            pre = havoc(a1)
+            thrown = False
+            try:
+                for st in stmts[loops[0] + 1:loops[1]]:
+                    ex.stmt(st)
+            except Thrown:
+                thrown = True
+            dists = [k for k in a1 if isinstance(pre[k], D) and k not in masses]
+            if len(dists) == 1:
+                zd = z3.Real('pre_' + dists[0])
+                claim = (z3.BoolVal(not thrown) if boxtype == 3 else ((zd > z3.Real('hmin') / 2) if thrown else z3.Not(zd > z3.Real('hmin') / 2)))
+                o = rvc.logic('C01.apply.ind/%s/reject' % tag, F, 'for a closed box the mapping is rejected exactly when the largest parent distance exceeds half the shortest box dimension; never for an open box', claim, pc=P.pc)
+                o['functions'] = mfs
+                obs.append(o)
+            else:
+                ob('C01.apply.ind/%s/reject' % tag, 'one largest-distance accumulator', False, str(dists))
+            if not thrown:
+                # ---- loop 2, one arbitrary iteration (velocity / force presence: all four patterns)
+                loop2 = stmts[loops[1]]
+                a2 = sorted(k for k in assigned_names(loop2) if k in ex.env)
+                flags2 = [k for k in a2 if isinstance(ex.env[k], bool)]
+                good2, det2 = True, []
+                for hv, hf in itertools.product((False, True), repeat=2):
+                    ek['hasvel'], ek['hasf'] = hv, hf
+                    for fv in itertools.product((False, True), repeat=len(flags2)):
+                        pre2 = havoc(a2)
+                        for k, b in zip(flags2, fv):
+                            ex.env[k] = b; pre2[k] = b
+                        ex.env[loop2['inner'][6]['inner'][0]['name']] = ek['entry']
+                        ex.stmt(loop2['inner'][7])
+                        nvec = 0
+                        for k in a2:
+                            a, b = pre2[k], ex.env[k]
+                            if isinstance(a, Mx):
+                                isv = all(rvc.nf_zero(b.g(c).v - a.g(c).v - (ek['w'] * ek['v'].g(c).v if hv else 0)) for c in range(3))
+                                isf = all(rvc.nf_zero(b.g(c).v - a.g(c).v - (ek['fw'] * ek['F'].g(c).v if hf else 0)) for c in range(3))
+                                okk = isv or isf
+                                nvec += 1
+                            elif isinstance(a, bool):
+                                okk = b in ((a or hv), (a or hf))
+                            else:
+                                okk = b is a or b == a
+                            good2 = good2 and okk
+                            det2.append('%s:%s' % (k, okk))
+                        good2 = good2 and nvec == 2
+                ob('C01.apply.ind/%s/loop2' % tag, 'one pass of the second loop for an arbitrary parent: velocity += w_k v_k if it has one, force += fw_k F_k if it has one (force weights, not position weights), flags |= presence; nothing else changes', good2, ' '.join(det2[:12]))
+                # ---- suffix on arbitrary accumulated values, every flag pattern
+                allacc = sorted(set(a1) | set(a2))
+                flagsS = [k for k in allacc if isinstance(ex.env.get(k), bool)]
+                goodS, detS = True, []
+                for fv in itertools.product((False, True), repeat=len(flagsS)):
+                    preS = havoc(allacc)
+                    for k, b in zip(flagsS, fv):
+                        ex.env[k] = b; preS[k] = b
+                    for k in ('mass', 'pos', 'vel', 'f'):
+                        out.pop(k, None)
+                    try:
+                        for st in stmts[loops[1] + 1:]:
+                            ex.stmt(st)
+                    except Ret:
+                        pass
+                    # every output is one of the accumulators, unchanged; set iff its flag
+                    vecs = {k: preS[k] for k in allacc if isinstance(preS[k], Mx)}
+                    def which(v):
+                        return [k for k, a in vecs.items() if isinstance(v, Mx) and all(rvc.nf_zero(v.g(c).v - a.g(c).v) for c in range(3))]
+                    okm = 'mass' in out and any(rvc.nf_zero(D.lift(out['mass']).v - preS[k].v) for k in masses)
+                    nset = sum(1 for k in ('pos', 'vel', 'f') if k in out)
+                    oks = all(len(which(out[k])) == 1 for k in ('pos', 'vel', 'f') if k in out) and len(set(tuple(which(out[k])) for k in ('pos', 'vel', 'f') if k in out)) == nset and nset == sum(1 for b in fv if b)
+                    goodS = goodS and okm and oks
+                    detS.append('%s->%s' % (fv, sorted(k for k in ('mass', 'pos', 'vel', 'f') if k in out)))
+                ob('C01.apply.ind/%s/outputs' % tag, 'after the loops the output bead gets the accumulated mass, and the accumulated position / velocity / force unchanged (no further scaling), each exactly when its presence flag is set', goodS, ' '.join(detS))
+            if not P.next():
+                break
+    return obs
+
+
 def job_topmap(seed):
     """TopologyMap::Apply: step, time and box of the output topology are set from the input BEFORE the bead maps run, and the maps get the OUTPUT boundary"""
     rvc.reset()
@@ -333,6 +559,8 @@ def run(tier, seed, only=None):
             jobs.append((job_apply, (n, 2, 'all', seed, True)))
             jobs.append((job_apply, (n, 3, 'mixed', seed, True)))
     jobs.append((job_topmap, (seed,)))
+    for bt in (1, 2, 3):
+        jobs.append((job_apply_inductive, (bt, seed)))
     if only:
         jobs = [j for j in jobs if re.search(only, j[0].__name__ + str(j[1]))]
     obs = core.pmap(jobs)
